@@ -15,6 +15,9 @@ func vMapWorkload(tpl, nk int) *vWorkload {
 	case 3: // schema + three channels with small maps + messages spread over chunks
 		wl.recs = []vRec{vSchemaRec("s1", 3, 1), vChannelRec("c3", 3, 3, 1, 2), vChannelRec("c1", 1, 0, 1, 2), vChannelRec("c2", 2, 3, 1, 0),
 			vMessageRec("m1", 2, 1), vMessageRec("m2", 3, 1), vMessageRec("m3", 1, 1), vMessageRec("m4", 2, 1)}
+	case 4: // two schemas and two channels written in descending id order (the writer's own id->record maps), metadata map
+		wl.recs = []vRec{vSchemaRec("s2", 2, 1), vSchemaRec("s1", 1, 1), vChannelRec("c2", 2, 2, 1, nk), vChannelRec("c1", 1, 1, 1, 0),
+			vMessageRec("m1", 1, 1), vMessageRec("m2", 2, 1)}
 	}
 	return wl
 }
